@@ -31,6 +31,11 @@ def so():
     return _cache['so']
 
 
+def so_asan():
+    if 'asan' not in _cache: _cache['asan'] = build.native_lib(['src/engine/engine_island.c'], ['src/engine/engine_util_misc.c', 'src/engine/engine_util_errmem.c'], name='island_asan', sanitize=True)
+    return _cache['asan']
+
+
 def prepare(tier):
     mod(); so()
 
@@ -109,7 +114,7 @@ def unit_merge(tier, ntree):
             expect = z3.If(z3.Or(oldr[i] == ra, oldr[i] == rb), z3.If(oldr[i] == -1, I(-1), mn), oldr[i])
             ck.prove('classes: root(%d) after merge = union rule' % i, pc, newr[i] == expect, site='mj_dsuMerge:classes', decode=dec, replay=rp)
         ck.reach('merge path reachable', pc)
-    ck.memory_obligations(res, replay=None)
+    ck.memory_obligations(res, replay=W.make_asan_replay(so_asan, [('mj_dsuMerge', args, 'void')], w), decode=dec)
     if nret == 0: ck.error('no returning path')
     # translator validation on concrete inputs
     def wf(pick):
@@ -162,7 +167,7 @@ def unit_assign(tier, ntree):
         tot = sum([z3.If(parent[i] != -1, dofnum[i], I(0)) for i in range(ntree)], I(0))
         ck.prove('nidof = sum of dofnum over active trees', pc, nid == tot, site='mj_dsuAssign:nidof', decode=dec, replay=rp)
         ck.reach('assign path', pc)
-    ck.memory_obligations(res)
+    ck.memory_obligations(res, replay=W.make_asan_replay(so_asan, [('mj_dsuAssign', args, 'i32')], w))
     return ck
 
 
@@ -213,7 +218,7 @@ def unit_flood(tier, nr, nnz):
             rank = sum([z3.If(z3.And(rownnz[k] != 0, *[z3.Or(rownnz[q] == 0, z3.Not(R[k][q])) for q in range(k)]), I(1), I(0)) for k in range(i)], I(0))
             ck.prove('vertex %d: ids ascending by smallest vertex' % i, pc, z3.Implies(first, isl[i] == rank), site='mj_floodFill:order', decode=dec, replay=rp)
     ck.reach('precondition satisfiable', pre)
-    ck.memory_obligations(res, replay=W.make_replay(so(), 'mj_floodFill', w, args, restype='i32', expect='crash'), decode=dec)
+    ck.memory_obligations(res, replay=W.make_asan_replay(so_asan, [('mj_floodFill', args, 'i32')], w), decode=dec)
     return ck
 
 
